@@ -84,6 +84,8 @@ package common
 //@   ensures [C16.empty] len(in) == 0 ==> result == nil
 //@   ensures [C16.framing] len(in) > 0 ==> (result != nil && fresh(result) && val(result) == old(hashI(in)))
 //@   ensures len(in) > 0 ==> (0 <= val(result) && bitlen(val(result)) <= 256)
+//@   assume-ensures [H0-challenge-nonzero] len(in) > 0 ==> (val(result) % secpN != 0 && val(result) % edN != 0)
+//@   unfold framei(le64(len(in)), elems(in), off(in), len(in), bvheap())
 //@   loop 0 invariant 0 <= bzSize && bzSize <= $iter * 281474976710656 && len(ptrs) == inLen && fresh(ptrs) && inLen == len(in)
 //@   loop 0 invariant forall k in 0..$iter :: (bytes(ptrs[k]) == be(val(in[k])) && allocated(ptrs[k]))
 //@   loop 1 invariant len(ptrs) == inLen && fresh(ptrs) && inLen == len(in) && fresh(data) && allocated(data)
@@ -103,8 +105,7 @@ package common
 //@   loop 1 invariant forall a :: (!fresh(a) ==> byteheap()[a] == old(byteheap())[a])
 //@   loop 1 invariant [C16.frame-prefix] bytes(data) == frameb(le64(inLen), elems(in), off(in), $iter, old(byteheap()))
 
-// tagT: digest of the one-element frame of the tag (written twice in front of the data)
-//@ define tagT(tag) = hashfn(15, cat(cat(cat(le64(1), bytes(tag)), single(36)), le64(len(tag))))
+// tagT (macros.spec): digest of the one-element frame of the tag (written twice in front of the data)
 //@ define hashT(tag, in) = beint(hashfn(15, cat(cat(tagT(tag), tagT(tag)), framei(le64(len(in)), elems(in), off(in), len(in), bvheap()))))
 
 //@ func SHA512_256i_TAGGED
@@ -114,6 +115,8 @@ package common
 //@   ensures [C16.empty] len(in) == 0 ==> result == nil
 //@   ensures [C16.tagged-framing] len(in) > 0 ==> (result != nil && fresh(result) && val(result) == old(hashT(tag, in)))
 //@   ensures len(in) > 0 ==> (0 <= val(result) && bitlen(val(result)) <= 256)
+//@   assume-ensures [H0-challenge-nonzero] len(in) > 0 ==> (val(result) % secpN != 0 && val(result) % edN != 0)
+//@   unfold framei(le64(len(in)), elems(in), off(in), len(in), bvheap())
 //@   loop 0 invariant 0 <= bzSize && bzSize <= $iter * 281474976710656 && len(ptrs) == inLen && fresh(ptrs) && inLen == len(in)
 //@   loop 0 invariant forall k in 0..$iter :: (bytes(ptrs[k]) == be(ite(in[k] == nil, 0, val(in[k]))) && allocated(ptrs[k]))
 //@   loop 0 invariant hstate(state) == cat(tagT(tag), tagT(tag)) || isnil(tagBz)
